@@ -72,7 +72,7 @@ def run_packets(bodies, images, window=60):
 
 
 def abstract(w, sess, frames, t0, hs_len, res, inst="C0"):
-    users = res["stats"].get("users") or []
+    users = [x for x in (res["stats"].get("users") or []) if x.get("auth")]
     if len(users) != 1 or users[0].get("conn") == 0 or not res["stats"].get("handshake"):
         return None
     enc = CD.NAMES.get(users[0].get("enc"), "b32")
